@@ -65,7 +65,7 @@ class PathSummary:
                 if e[1] in known and known[e[1]] != e[2]:
                     return False
                 known[e[1]] = e[2]
-            elif e[0] == "set":
+            elif e[0] in ("set", "alias"):
                 known.pop(e[1], None)
         return True
 
@@ -88,10 +88,14 @@ class Handler:
         self.schedvar = schedvar
         self.cfg = CFG(fn)
         self._paths: Optional[list[PathSummary]] = None
+        self._aliases = None
+        self._alias_defs()
 
     # -- normalisation -------------------------------------------------------
     def norm_atom(self, text: str) -> str:
         jv, sv = self.jobvar, self.schedvar
+        if text.isidentifier() and getattr(self, "_aliases", None) and text in self._aliases:
+            return "local." + text
         if text == jv:
             return "job"
         if text.startswith(jv + "."):
@@ -100,7 +104,35 @@ class Handler:
             return "sched." + text[len(sv) + 1 :]
         return text
 
+    def _alias_defs(self) -> dict:
+        """Local names assigned exactly once from a single tracked condition, e.g. `is_retry = job.args is not None`."""
+        if getattr(self, "_aliases", None) is None:
+            counts: dict = {}
+            for n in ast.walk(self.fn):
+                if isinstance(n, ast.Assign) and len(n.targets) == 1 and isinstance(n.targets[0], ast.Name):
+                    counts.setdefault(n.targets[0].id, []).append(n)
+            out = {}
+            for name, defs in counts.items():
+                if len(defs) != 1 or not isinstance(defs[0].value, ast.expr):
+                    continue
+                facts = cond_facts(defs[0].value, True)
+                if len(facts) != 1:
+                    continue
+                atom, truth = facts[0]
+                isnone = None
+                if atom.endswith(" is None"):
+                    atom, isnone = atom[: -len(" is None")], truth
+                elif atom.endswith(" is not None"):
+                    atom, isnone = atom[: -len(" is not None")], not truth
+                a = self.norm_atom(atom)
+                if self.tracked(a) and a != "job" and not a.startswith("local."):
+                    out[name] = (defs[0], a, truth, isnone)
+            self._aliases = out
+        return self._aliases
+
     def tracked(self, atom: str) -> bool:
+        if atom.startswith("local."):
+            return True
         if atom == "job":
             return True
         if not (atom.startswith("job.") or atom.startswith("sched.")):
@@ -146,6 +178,9 @@ class Handler:
                 eff = self.lc.effect_of_call(self, c)
                 if eff:
                     evs.append(eff)
+        for name, (dnode, atom, truth, isnone) in self._alias_defs().items():
+            if dnode is a:
+                evs.append(("alias", "local." + name, atom, truth, isnone))
         # assignments to tracked attributes
         if isinstance(a, (ast.Assign, ast.AnnAssign, ast.AugAssign)):
             from .core import assigned_targets
@@ -155,6 +190,8 @@ class Handler:
                 if not d:
                     continue
                 na = self.norm_atom(d)
+                if na.startswith("local."):
+                    continue  # alias definitions are handled by the alias event
                 if self.tracked(na):
                     val: object = "?"
                     v = getattr(a, "value", None)
@@ -173,11 +210,26 @@ class Handler:
                 for n in p:
                     evs.extend(self._events_of_node(n))
                 kind = "raise" if p[-1] is self.cfg.raise_exit else "return"
-                ps = PathSummary(evs, p, kind)
-                if ps.consistent():
-                    seen.setdefault(ps.sig(), ps)
+                for evs2, kind2 in self._expand_inlines(evs, kind):
+                    ps = PathSummary(evs2, p, kind2)
+                    if ps.consistent():
+                        seen.setdefault(ps.sig(), ps)
             self._paths = list(seen.values())
         return self._paths
+
+    def _expand_inlines(self, evs: list, kind: str, depth: int = 0):
+        """Replace ("inline", helper) events by each of the helper's path summaries (helpers are Scheduler methods
+        that take the job and contain lifecycle-relevant events)."""
+        idx = next((i for i, e in enumerate(evs) if e[0] == "inline"), None)
+        if idx is None or depth > 3:
+            yield [e for e in evs if e[0] != "inline"], kind
+            return
+        helper = self.lc.helper_handler(evs[idx][1], evs[idx][2])
+        for hp in helper.paths():
+            if hp.exit_kind == "raise":
+                yield from self._expand_inlines(evs[:idx] + hp.events, "raise", depth + 1)
+            else:
+                yield from self._expand_inlines(evs[:idx] + hp.events + evs[idx + 1 :], kind, depth + 1)
 
 
 class Lifecycle:
@@ -302,9 +354,56 @@ class Lifecycle:
                     return ("cont", self._short("Scheduler." + meth))
         if la in ("submit", "submit_script") and c.args and isinstance(c.args[0], ast.Name) and c.args[0].id == h.jobvar:
             return ("cont", "submit")
+        if d.startswith(sv + ".") and d.count(".") == 1:
+            meth = d[len(sv) + 1 :]
+            pos = next((i for i, a in enumerate(c.args) if isinstance(a, ast.Name) and a.id == h.jobvar), None)
+            if pos is not None and self.is_lifecycle_helper(meth):
+                return ("inline", meth, pos)
         if d:
             return ("call", d)
         return None
+
+    # -- helpers that are inlined ---------------------------------------------------
+    NOT_HELPERS = ("_check_pending_job", "_get_cache", "_preprocess_args", "_postprocess_result", "_record_job_tags", "_set_task_traceback", "_get_subtree_tasks", "_log_cache_miss", "set_cache")
+
+    def is_lifecycle_helper(self, meth: str) -> bool:
+        """A Scheduler method (not a handler/wrapper) whose body consumes/releases units, finalises, hands the job on,
+        or assigns a constant to a job attribute."""
+        if meth in self.wrappers or "Scheduler." + meth in self.handlers or meth in self.NOT_HELPERS:
+            return False
+        if meth in ("_consume_resources", "_release_resources", "_finalize_job", "_add_job_pending_limits", "_check_jobs_pending_limits"):
+            return False
+        fn = self.mod.funcs.get("Scheduler." + meth)
+        if fn is None or len(fn.args.args) < 2:
+            return False
+        cache = getattr(self, "_helper_flags", None)
+        if cache is None:
+            cache = self._helper_flags = {}
+        if meth not in cache:
+            t = False
+            for c in calls_in(fn):
+                d = call_name(c) or ""
+                if d in ("self._consume_resources", "self._release_resources", "self._finalize_job", "self._add_job_pending_limits") or d[5:] in self.wrappers or "Scheduler." + d[5:] in self.handlers:
+                    t = True
+            for n in ast.walk(fn):
+                if isinstance(n, ast.Assign) and isinstance(n.value, ast.Constant):
+                    for tg in n.targets:
+                        if isinstance(tg, ast.Attribute) and isinstance(tg.value, ast.Name) and tg.value.id in [a.arg for a in fn.args.args[1:]]:
+                            t = True
+            cache[meth] = t
+        return cache[meth]
+
+    def helper_handler(self, meth: str, pos: int) -> "Handler":
+        key = (meth, pos)
+        hh = getattr(self, "_helper_handlers", None)
+        if hh is None:
+            hh = self._helper_handlers = {}
+        if key not in hh:
+            fn = self.mod.func("Scheduler." + meth)
+            params = [a.arg for a in fn.args.args]
+            jobvar = params[pos + 1] if pos + 1 < len(params) else params[1]
+            hh[key] = Handler(self, self.mod, "Scheduler." + meth, fn, jobvar, "self")
+        return hh[key]
 
     # -- non-idempotent effects -------------------------------------------------
     def _nonidempotent_summary(self) -> dict[str, list[str]]:
@@ -345,6 +444,8 @@ class Lifecycle:
                     d = call_name(c) or ""
                     if d.startswith("self.") and d.count(".") == 1:
                         callee = d[5:]
+                        if callee in self.wrappers or callee in ("_consume_resources", "_release_resources", "_check_jobs_pending_limits"):
+                            continue  # deferred continuation / resource accounting (checked separately)
                         for e in summ.get(callee, []):
                             tag = f"{callee}: {e}" if ": " not in e else e
                             if tag not in summ[name] and e not in summ[name]:
@@ -360,8 +461,10 @@ class Lifecycle:
         sv = h.schedvar
         if d.startswith(sv + ".") and d.count(".") == 1:
             meth = d[len(sv) + 1 :]
-            if meth in self.WAITQ_METHODS or meth in ("_consume_resources", "_release_resources", "_finalize_job"):
+            if meth in self.WAITQ_METHODS or meth in ("_consume_resources", "_release_resources", "_finalize_job", "_check_jobs_pending_limits"):
                 return None
+            if self.is_lifecycle_helper(meth):
+                return None  # inlined
             if meth in self.wrappers or "Scheduler." + meth in self.handlers:
                 return None
             effs = self._nonidempotent_summary().get(meth)
@@ -415,6 +518,7 @@ class Lifecycle:
 
         def step(hkey: str, state: dict, trace: list, visited: frozenset):
             h = self.handlers[hkey]
+            state = {k: v for k, v in state.items() if not k.startswith("local.")}
             for ps in h.paths():
                 st = dict(state)
                 notes = []
@@ -444,6 +548,14 @@ class Lifecycle:
                         elif (cur is None) != truth:
                             feasible = False
                             break
+                    elif k == "alias":
+                        _, lname, atom, truth, isnone = e
+                        cur = st.get(atom, "?")
+                        if isnone is not None:
+                            val = "?" if cur == "?" else ((cur is None) == isnone)
+                        else:
+                            val = "?" if cur in ("?", "!") else (bool(cur) == truth)
+                        st[lname] = val
                     elif k == "effect":
                         notes.append(("effect", e[1]))
                     elif k == "set":
@@ -472,6 +584,10 @@ class Lifecycle:
                     count[0] += 1
                     if count[0] > max_traces:
                         raise AnalysisError("lifecycle trace explosion")
+                    continue
+                if abs(st["held"]) > 2 or len(trace) > 12:
+                    # the unit count has already left {0,1} (reported by the consumer rule); do not unfold further
+                    results.append(("diverge", trace + [entry]))
                     continue
                 for cont in dict.fromkeys(conts):
                     for nh in self.next_handlers(cont):
